@@ -175,8 +175,20 @@ def monitor(case, out):
     cur = {}          # tid -> label it is parked at
     after_enq = set()
     b = 0
+    inflight = set(t for t, s in enumerate(specs) if s == 'I')
+    holding = set()   # senders between RefAutoCounter::new and its drop
+    npool = len(specs)
     for i, r in enumerate(recs):
         tid = r['tid']
+        if r['label'] == 'ref_inc': holding.add(tid)
+        if r['label'] == 'ref_dec': holding.discard(tid)
+        if r['label'] == 'handoff' and r['next'] == 'ref_dec':
+            inflight.add(npool); npool += 1          # the inner sender kept the CounterTask: a command is in flight
+        if r['label'] == 'task_dec' and tid in inflight:
+            inflight.discard(tid)
+        if 'D1' in r['notes'] and (inflight or holding):
+            return ('step %d: blocking_done() answered true while commands %s are in flight and senders %s are inside the counted section'
+                    % (i, sorted(inflight), sorted(holding)))
         if r['label'] == 'handoff':
             if sealed:
                 return ('step %d: task %d handed to the inner sender after a blocker observed blocking_done()=true and before the '
@@ -285,6 +297,41 @@ def explore(chk, term0, specs, maxe):
     return parts[0], scheds
 
 
+class Acc:
+    def __init__(self):
+        self.hist, self.pools, self.nfail, self.ncases = {}, {}, 0, 0
+        self.disagreements = []
+        self.ndis = 0
+
+
+def process(chk, acc, cases):
+    """both sides on a batch of cases; monitors on the implementation trace; line-by-line comparison"""
+    if not cases:
+        return
+    rc1, impl = chk.run_impl('barrier', cases, timeout=3000, jobs=8)
+    rc2, model = chk.run_model('barrier', cases, timeout=3000, jobs=8)
+    for i, c in enumerate(cases):
+        o = impl[i] if i < len(impl) else '<no output>'
+        m = model[i] if i < len(model) else '<no output>'
+        f = features(o)
+        for x in f:
+            acc.hist[x] = acc.hist.get(x, 0) + 1
+        nthreads = len(c.split(' / ')[0].split()) - 2
+        acc.pools[nthreads] = acc.pools.get(nthreads, 0) + 1
+        chk.count(c, bool(f & {'enqueue', 'done_true', 'done_false', 'cas_failed', 'handoff_while_blocking_not_done'}))
+        bad = monitor(c, o)
+        if bad:
+            acc.nfail += 1
+            chk.violation({'kind': 'monitor', 'case': c, 'impl': o, 'model': m, 'what': bad})
+        elif o != m:
+            acc.ndis += 1
+            if len(acc.disagreements) < 3:
+                acc.disagreements.append({'case': c, 'impl': o, 'model': m})
+        if (acc.ncases + i) % 4001 == 0:
+            chk.sample({'case': c[:300], 'impl': o[:600], 'model': m[:600]})
+    acc.ncases += len(cases)
+
+
 def run(chk):
     ok = vlib.standard_proof_phase(chk, TRUSTED, 'barrier')
     chk.cov['rule'] = ('case = (initial term, thread pool, schedule); edge-coverage cases: for every state of the model\'s deduplicated state graph '
@@ -298,10 +345,12 @@ def run(chk):
     for p in pp:
         chk.violation({'kind': 'correspondence', 'correspondence': 'hook H3 placement / memory-order pin', 'detail': p}, no_input=True)
     quick = chk.tier == 'quick'
-    cases = list(CORPUS)
-    # exhaustive part
+    acc = Acc()
+    process(chk, acc, list(CORPUS))
+    # exhaustive part: every edge of the state graph of every small pool
     cfgs = explore_configs(chk.tier)
     ex_stats = {'configs': len(cfgs), 'states': 0, 'edges': 0, 'truncated': 0}
+    batch = []
     for term0, specs in cfgs:
         head, scheds = explore(chk, term0, specs, 200000)
         if head is None:
@@ -310,39 +359,24 @@ def run(chk):
         m = re.match(r'explored states=(\d+) edges=(\d+) truncated=(\d)', head)
         ex_stats['states'] += int(m.group(1)); ex_stats['edges'] += int(m.group(2)); ex_stats['truncated'] += int(m.group(3))
         for s in scheds:
-            cases.append(mk_case(term0, specs, s))
+            batch.append(mk_case(term0, specs, s))
+        if len(batch) >= 40000:
+            process(chk, acc, batch); batch = []
+    process(chk, acc, batch)
+    n_explore = acc.ncases - len(CORPUS)
     chk.sub('exhaustive', exhaustive=(ex_stats['truncated'] == 0), **ex_stats)
-    n_explore = len(cases) - len(CORPUS)
     # random part
     r = chk.rng
-    nrand = 4000 if quick else 60000
-    for i in range(nrand):
-        cases.append(random_case(r, 4 if (quick or i % 2 == 0) else 6))
-    rc1, impl = chk.run_impl('barrier', cases, timeout=3000, jobs=8)
-    rc2, model = chk.run_model('barrier', cases, timeout=3000, jobs=8)
-    hist, nfail, disagreements = {}, 0, []
-    pools = {}
-    for i, c in enumerate(cases):
-        o = impl[i] if i < len(impl) else '<no output>'
-        m = model[i] if i < len(model) else '<no output>'
-        f = features(o)
-        for x in f:
-            hist[x] = hist.get(x, 0) + 1
-        nthreads = len(c.split(' / ')[0].split()) - 2
-        pools[nthreads] = pools.get(nthreads, 0) + 1
-        chk.count(c, bool(f & {'enqueue', 'done_true', 'done_false', 'cas_failed', 'handoff_while_blocking_not_done'}))
-        bad = monitor(c, o)
-        if bad:
-            nfail += 1
-            chk.violation({'kind': 'monitor', 'case': c, 'impl': o, 'model': m, 'what': bad})
-        elif o != m:
-            disagreements.append({'case': c, 'impl': o, 'model': m})
-        if i % 4001 == 0:
-            chk.sample({'case': c[:300], 'impl': o[:600], 'model': m[:600]})
-    chk.cov['traces_validated_against_impl'] = len(cases) - len(disagreements) - nfail
-    chk.sub('distribution', cases=len(cases), corpus=len(CORPUS), edge_coverage_cases=n_explore, random_cases=nrand,
-            features=hist, pool_sizes=pools, monitor_failures=nfail, disagreements=len(disagreements))
-    if disagreements and not nfail:
+    nrand = 4000 if quick else 80000
+    done = 0
+    while done < nrand:
+        nb = min(40000, nrand - done)
+        process(chk, acc, [random_case(r, 4 if (quick or i % 2 == 0) else 6) for i in range(nb)])
+        done += nb
+    chk.cov['traces_validated_against_impl'] = acc.ncases - acc.ndis - acc.nfail
+    chk.sub('distribution', cases=acc.ncases, corpus=len(CORPUS), edge_coverage_cases=n_explore, random_cases=nrand,
+            features=acc.hist, pool_sizes=acc.pools, monitor_failures=acc.nfail, disagreements=acc.ndis)
+    if acc.ndis and not acc.nfail:
         # search for a failing input around the disagreement: more random schedules, monitors only
         extra = [random_case(r, 4) for _ in range(20000)]
         _, impl2 = chk.run_impl('barrier', extra, timeout=3000, jobs=8)
@@ -350,13 +384,13 @@ def run(chk):
             bad = monitor(c, o)
             if bad:
                 chk.violation({'kind': 'monitor', 'case': c, 'impl': o, 'what': bad, 'found_by': 'search after a model/implementation disagreement'})
-                nfail += 1
+                acc.nfail += 1
                 break
-        if not nfail:
+        if not acc.nfail:
             chk.violation({'kind': 'correspondence', 'correspondence': 'Model/Barrier.v step vs proxy/blocking.rs + common/biatomic.rs under the H3 scheduler',
-                           'first': disagreements[0], 'count': len(disagreements),
+                           'first': acc.disagreements[0], 'count': acc.ndis,
                            'search': 'monitors evaluated on all %d implementation traces and on 20000 further random schedules: no property failure'
-                                     % len(cases)}, no_input=True)
+                                     % acc.ncases}, no_input=True)
 
 
 def replay(data):
